@@ -302,20 +302,44 @@ def run_chunk(args: tuple[str, int, int, int]) -> dict:
     cs = allc[k::n]
     bad: list[dict] = []
     req = 0
+    nontrivial: set[str] = set()
+    samples: list[dict] = []
     for c in cs:
         try:
             r = run_scan(*c)
             req += r["requests"]
+            # non-trivial: the scan has to leave the default session's neighbourhood or honour
+            # a skip list / a cycle: more than one reachable session or something unreachable
+            T_, depth_, skip_ = c[0], c[1], c[2]
+            nodes = {a for e in T_ for a in e}
+            full = set(expected_reachable(T_, 200, set()))
+            cut = set(r["expected"]) != full            # the depth limit or the skip list bites
+            deep = any(d >= 2 for d in expected_reachable(T_, depth_, skip_).values())
+            island = bool(nodes - full - {1})            # sessions no path leads to
+            if cut or deep or island:
+                nontrivial.add(describe(c))
+            if len(samples) < 2 and len(r["expected"]) > 1:
+                samples.append({"case": describe(c), "reported": r["result"],
+                                "requests": r["requests"], "rows": r["rows"][:3]})
         except icontract.ViolationError:
             r = run_scan.__wrapped__(*c) if hasattr(run_scan, "__wrapped__") else None
             bad.append({"case": describe(c), "problems": (r or {}).get("problems", ["?"])[:3]})
-    return {"n": len(cs), "bad": bad[:5], "n_bad": len(bad), "requests": req}
+    return {"n": len(cs), "bad": bad[:5], "n_bad": len(bad), "requests": req,
+            "distinct_nontrivial": len(nontrivial), "samples": samples}
 
 
 def standin_unit(tier: str, seed: int, k: int, n: int):
     def harness(I: Interp) -> None:
         r = run_chunk((tier, seed, k, n))
         I.ghost["standin"] = r
+        I.ex.extra.update({
+            "evaluations": r["n"], "distinct_nontrivial": r["distinct_nontrivial"],
+            "samples": r["samples"], "exhaustive": False,
+            "rule": "one case = one run of the real SessionsScanner.main against a ghost ECU "
+                    "(transition relation, depth, skip list, thorough, NRC policy, reset); all "
+                    "relations of the stated family are enumerated, seeded larger graphs are "
+                    "sampled; distinct = distinct case descriptions; non-trivial = more than "
+                    "one reachable session, or an unreachable session, or a skip list"})
         detail = "; ".join(f"{b['case']}: {b['problems']}" for b in r["bad"][:2])
         I.prove(f"B-scan-postcondition-holds-on-every-graph-of-the-family"
                 f"(chunk-{k}/{n},bounded-standin)",
